@@ -8,19 +8,31 @@ look-up reading the property asks for).  The decisive part of C13 is the corresp
 real pandas-based code (`./check C13`), and "neither operand is modified" is about Python aliasing and is
 checked on the real code only (deep copies before / after).
 
-The real code raises on some operand pairs (`raises`, see the model file); every theorem about the result is
-therefore stated under `broadcast … = .ok out`, and `raises_false_of_present` / `raises_false_of_same_levels` /
-`raises_false_of_disjoint` show that this guard is met on the property's whole quantifier domain except the
-finding class `contained-multi-shared-missing-key` (witness: `raises_at_witness`).
+The model describes the code after the repairs under `tools/fixes/C13-*.diff`: for a pandas parameter the
+Broadcaster always returns (`broadcast_total`); the only modelled error is the documented `ValueError` for an array
+of a wrong length, so the theorems about the result are stated under `broadcast … = .ok out`.
+
+Hypothesis `Tbl.KeysNodup`: no two rows of an operand have the same key (the quantifier speaks of key SETS; with
+duplicate keys pandas refuses to join, the model is validated on distinct keys only).
+
+Completeness (section 3): which rows of the operands are represented in the result is characterised exactly
+(`obj_row_represented_iff`, `prm_row_represented_iff`): a row is lost iff it has no partner and its operand is a
+flat (one-level) index joined with a MultiIndex that has this level - pandas' join "on a level" - or no level is
+shared at all (then it has no partner only if the other operand is empty).
 -/
 import Proofs.Lemmas.Broadcast
+import Mathlib.Data.List.Nodup
 
 namespace PylifeVerif.C13
 open PylifeVerif.Broadcast
 
 variable {V : Type}
 
-/-! ### 1. both returned objects have the same index (level names, keys, order) -/
+/-! ### 1. both returned objects have the same index (level names, keys, order)
+
+This holds by construction of `split` (both returned tables are projections of ONE list of joined rows - in the
+real code both are reindexed to one joined index); that the real outputs carry the identical index, order included,
+is checked on the real code by the oracle. -/
 
 theorem broadcast_same_index (obj : Tbl V) (p : Prm V) (out : Out V)
     (h : broadcast obj p = .ok out) :
@@ -28,31 +40,26 @@ theorem broadcast_same_index (obj : Tbl V) (p : Prm V) (out : Out V)
   unfold broadcast at h
   split at h
   · cases h
-  · split at h
-    · cases h
-    · cases h
-      simp [split, List.map_map, Function.comp_def]
+  · cases h
+    simp [split, List.map_map, Function.comp_def]
 
 /-- the result levels are exactly the levels of the two operands -/
 theorem broadcast_levels (obj prm : Tbl V) (out : Out V) (h : broadcast obj (.tbl prm) = .ok out)
     (n : Name) : n ∈ out.obj.names ↔ n ∈ obj.names ∨ n ∈ prm.names := by
   simp only [broadcast, prmTbl, broadcastTbl] at h
-  split at h
-  · cases h
-  · next j hj =>
-    split at hj
-    · cases hj
-    · cases hj; cases h
-      exact mem_resultNames
+  cases h
+  exact mem_resultNames
 
 /-! ### 2. every row carries the originals' payloads at the restricted key, or NaN -/
 
 /-- The joined rows: the object payload is what the object holds at the row's key restricted to the object's
 levels (`none` = NaN = the object has no such key), and likewise for the parameter. -/
-theorem joinRows_lookup (obj prm : Tbl V) (hfo : obj.Functional) (hfp : prm.Functional)
+theorem joinRows_lookup (obj prm : Tbl V) (hko : obj.KeysNodup) (hkp : prm.KeysNodup)
     (r : Row V) (hr : r ∈ joinRows obj prm) :
     r.obj = obj.at (restrict (resultNames obj.names prm.names) r.key obj.names) ∧
     r.prm = prm.at (restrict (resultNames obj.names prm.names) r.key prm.names) := by
+  have hfo := hko.functional
+  have hfp := hkp.functional
   have hon : ∀ n ∈ obj.names, n ∈ resultNames obj.names prm.names :=
     fun n hn => mem_resultNames.mpr (Or.inl hn)
   have hpn : ∀ n ∈ prm.names, n ∈ resultNames obj.names prm.names :=
@@ -76,36 +83,29 @@ theorem joinRows_lookup (obj prm : Tbl V) (hfo : obj.Functional) (hfp : prm.Func
     exact ⟨rfl, (at_of_mem hfp hrp).symm⟩
 
 /-- The property's look-up clause for the two returned tables. -/
-theorem broadcast_lookup (obj prm : Tbl V) (hfo : obj.Functional) (hfp : prm.Functional)
+theorem broadcast_lookup (obj prm : Tbl V) (hko : obj.KeysNodup) (hkp : prm.KeysNodup)
     (out : Out V) (h : broadcast obj (.tbl prm) = .ok out) :
     (∀ kv ∈ out.obj.rows, kv.2 = obj.at (restrict out.obj.names kv.1 obj.names)) ∧
     (∀ kv ∈ out.prm.rows, kv.2 = prm.at (restrict out.prm.names kv.1 prm.names)) := by
   simp only [broadcast, prmTbl, broadcastTbl] at h
-  split at h
-  · cases h
-  · next j hj =>
-    split at hj
-    · cases hj
-    · cases hj; cases h
-      simp only [split, List.mem_map]
-      constructor
-      · rintro kv ⟨r, hr, rfl⟩
-        exact (joinRows_lookup obj prm hfo hfp r hr).1
-      · rintro kv ⟨r, hr, rfl⟩
-        exact (joinRows_lookup obj prm hfo hfp r hr).2
+  cases h
+  simp only [split, List.mem_map]
+  constructor
+  · rintro kv ⟨r, hr, rfl⟩
+    exact (joinRows_lookup obj prm hko hkp r hr).1
+  · rintro kv ⟨r, hr, rfl⟩
+    exact (joinRows_lookup obj prm hko hkp r hr).2
 
 /-- A scalar parameter comes back as that scalar on every row. -/
 theorem broadcast_scalar (obj : Tbl V) (v : V) (out : Out V)
-    (hfo : obj.Functional) (h : broadcast obj (.scalar v) = .ok out) :
+    (hko : obj.KeysNodup) (h : broadcast obj (.scalar v) = .ok out) :
     (∀ kv ∈ out.prm.rows, kv.2 = some v) ∧
     (∀ kv ∈ out.obj.rows, kv.2 = obj.at (restrict out.obj.names kv.1 obj.names)) := by
-  have hfp : (⟨[], [([], v)]⟩ : Tbl V).Functional := by
-    intro r hr r' hr' _
-    simp only [List.mem_singleton] at hr hr'
-    rw [hr, hr']
+  have hkp : (⟨[], [([], v)]⟩ : Tbl V).KeysNodup := by
+    simp [Tbl.KeysNodup]
   have h' : broadcast obj (.tbl ⟨[], [([], v)]⟩) = .ok out := by
     simpa [broadcast, prmTbl] using h
-  have := broadcast_lookup obj _ hfo hfp out h'
+  have := broadcast_lookup obj _ hko hkp out h'
   refine ⟨fun kv hkv => ?_, this.1⟩
   rw [this.2 kv hkv]
   simp [restrict, Tbl.at, ownKey]
@@ -125,33 +125,377 @@ theorem prmTbl_array (obj : Tbl V) (vs : List V) :
   | [_], h3 => simp at h3
   | _ :: _ :: _, _ => rfl
 
-/-! ### 3. nothing is invented, nothing that pairs is lost -/
+
+/-! ### 3. nothing is invented, nothing is lost - except a flat operand's partner-less rows -/
 
 /-- Every row of the result stems from a row of the object, a row of the parameter, or a pair of rows that
 agree on all shared levels; its key holds, level by level, the object's code where the object has the level
-and the parameter's code elsewhere. -/
-theorem broadcast_nothing_invented (obj prm : Tbl V) (j : Joined V)
-    (h : broadcastTbl obj prm = .ok j) (r : Row V) (hr : r ∈ j.rows) :
-    RowOrigin obj prm j.names r := by
-  unfold broadcastTbl at h
-  split at h
-  · cases h
-  · cases h
-    exact mem_joinRows hr
+and the parameter's code elsewhere (NaN where the row's only operand does not have the level). -/
+theorem broadcast_nothing_invented (obj prm : Tbl V) (r : Row V) (hr : r ∈ (broadcastTbl obj prm).rows) :
+    RowOrigin obj prm (broadcastTbl obj prm).names r :=
+  mem_joinRows hr
 
 /-- Every pair of rows that agree on the shared levels is in the result, with both payloads. -/
-theorem broadcast_pairs_complete (obj prm : Tbl V) (j : Joined V)
-    (h : broadcastTbl obj prm = .ok j) (ro rp : Key × V) (hro : ro ∈ obj.rows) (hrp : rp ∈ prm.rows)
+theorem broadcast_pairs_complete (obj prm : Tbl V) (ro rp : Key × V) (hro : ro ∈ obj.rows) (hrp : rp ∈ prm.rows)
     (hag : agree obj.names ro.1 prm.names rp.1 = true) :
-    (⟨pairKey j.names obj.names ro.1 prm.names rp.1, some ro.2, some rp.2⟩ : Row V) ∈ j.rows := by
-  unfold broadcastTbl at h
-  split at h
-  · cases h
-  · cases h
-    simp only [joinRows, List.mem_append]
-    exact Or.inl (Or.inl (mem_matched.mpr ⟨ro, hro, rp, hrp, hag, rfl⟩))
+    (⟨pairKey (broadcastTbl obj prm).names obj.names ro.1 prm.names rp.1, some ro.2, some rp.2⟩ : Row V)
+      ∈ (broadcastTbl obj prm).rows := by
+  simp only [broadcastTbl, joinRows, List.mem_append]
+  exact Or.inl (Or.inl (mem_matched.mpr ⟨ro, hro, rp, hrp, hag, rfl⟩))
 
-/-! ### 4. disjoint level names: cross join with |obj|·|prm| rows -/
+/-- A partner-less row of the object is kept (NaN for the parameter; NaN in the levels the object has not) unless
+the object is a flat index joined with a MultiIndex, or no level is shared. -/
+theorem unmatched_obj_kept (obj prm : Tbl V) (ro : Key × V) (hro : ro ∈ obj.rows)
+    (hno : ∀ rp ∈ prm.rows, agree obj.names ro.1 prm.names rp.1 = false)
+    (hk : keepsUnmatched obj.names prm.names = true) :
+    (⟨(broadcastTbl obj prm).names.map (get obj.names ro.1), some ro.2, none⟩ : Row V)
+      ∈ (broadcastTbl obj prm).rows := by
+  simp only [broadcastTbl, joinRows, List.mem_append, hk, if_true]
+  exact Or.inl (Or.inr (List.mem_map.mpr ⟨ro, mem_unmatchedObj.mpr ⟨hro, hno⟩, rfl⟩))
+
+theorem unmatched_prm_kept (obj prm : Tbl V) (rp : Key × V) (hrp : rp ∈ prm.rows)
+    (hno : ∀ ro ∈ obj.rows, agree obj.names ro.1 prm.names rp.1 = false)
+    (hk : keepsUnmatched prm.names obj.names = true) :
+    (⟨(broadcastTbl obj prm).names.map (get prm.names rp.1), none, some rp.2⟩ : Row V)
+      ∈ (broadcastTbl obj prm).rows := by
+  simp only [broadcastTbl, joinRows, List.mem_append, hk, if_true]
+  exact Or.inr (List.mem_map.mpr ⟨rp, mem_unmatchedPrm.mpr ⟨hrp, hno⟩, rfl⟩)
+
+/-- the object's row `ro` is represented in the result: some result row carries its payload at a key whose
+restriction to the object's levels is the row's own key -/
+def ObjRepresented (obj prm : Tbl V) (ro : Key × V) : Prop :=
+  ∃ r ∈ (broadcastTbl obj prm).rows, r.obj = some ro.2 ∧
+    restrict (broadcastTbl obj prm).names r.key obj.names = ownKey obj.names ro.1
+
+def PrmRepresented (obj prm : Tbl V) (rp : Key × V) : Prop :=
+  ∃ r ∈ (broadcastTbl obj prm).rows, r.prm = some rp.2 ∧
+    restrict (broadcastTbl obj prm).names r.key prm.names = ownKey prm.names rp.1
+
+/-- COMPLETENESS, exactly: a row of the object is represented in the result iff it has a partner or partner-less
+rows of the object are kept. -/
+theorem obj_row_represented_iff (obj prm : Tbl V) (ro : Key × V) (hro : ro ∈ obj.rows) :
+    ObjRepresented obj prm ro ↔
+      (∃ rp ∈ prm.rows, agree obj.names ro.1 prm.names rp.1 = true) ∨
+        keepsUnmatched obj.names prm.names = true := by
+  have hon : ∀ n ∈ obj.names, n ∈ resultNames obj.names prm.names :=
+    fun n hn => mem_resultNames.mpr (Or.inl hn)
+  constructor
+  · rintro ⟨r, hr, hobj, hkey⟩
+    cases mem_joinRows hr with
+    | pair ro' rp' hro' hrp' hag hr' =>
+      subst hr'
+      left
+      refine ⟨rp', hrp', ?_⟩
+      simp only [broadcastTbl] at hkey
+      rw [restrict_pairKey_obj _ _ _ _ _ hon] at hkey
+      exact agree_congr_obj hkey hag
+    | objOnly ro' hro' hno hkeep hr' => exact Or.inr hkeep
+    | prmOnly rp' hrp' hno hkeep hr' =>
+      subst hr'
+      cases hobj
+  · intro h
+    by_cases hp : ∃ rp ∈ prm.rows, agree obj.names ro.1 prm.names rp.1 = true
+    · obtain ⟨rp, hrp, hag⟩ := hp
+      refine ⟨_, broadcast_pairs_complete obj prm ro rp hro hrp hag, rfl, ?_⟩
+      exact restrict_pairKey_obj _ _ _ _ _ hon
+    · have hk : keepsUnmatched obj.names prm.names = true := h.resolve_left hp
+      have hno : ∀ rp ∈ prm.rows, agree obj.names ro.1 prm.names rp.1 = false := by
+        intro rp hrp
+        cases hb : agree obj.names ro.1 prm.names rp.1 with
+        | false => rfl
+        | true => exact absurd ⟨rp, hrp, hb⟩ hp
+      refine ⟨_, unmatched_obj_kept obj prm ro hro hno hk, rfl, ?_⟩
+      exact restrict_map _ _ _ hon
+
+theorem prm_row_represented_iff (obj prm : Tbl V) (rp : Key × V) (hrp : rp ∈ prm.rows) :
+    PrmRepresented obj prm rp ↔
+      (∃ ro ∈ obj.rows, agree obj.names ro.1 prm.names rp.1 = true) ∨
+        keepsUnmatched prm.names obj.names = true := by
+  have hpn : ∀ n ∈ prm.names, n ∈ resultNames obj.names prm.names :=
+    fun n hn => mem_resultNames.mpr (Or.inr hn)
+  constructor
+  · rintro ⟨r, hr, hprm, hkey⟩
+    cases mem_joinRows hr with
+    | pair ro' rp' hro' hrp' hag hr' =>
+      subst hr'
+      left
+      refine ⟨ro', hro', ?_⟩
+      simp only [broadcastTbl] at hkey
+      rw [restrict_pairKey_prm _ _ _ _ _ hpn hag] at hkey
+      exact agree_congr_prm hkey hag
+    | objOnly ro' hro' hno hkeep hr' =>
+      subst hr'
+      cases hprm
+    | prmOnly rp' hrp' hno hkeep hr' => exact Or.inr hkeep
+  · intro h
+    by_cases hp : ∃ ro ∈ obj.rows, agree obj.names ro.1 prm.names rp.1 = true
+    · obtain ⟨ro, hro, hag⟩ := hp
+      refine ⟨_, broadcast_pairs_complete obj prm ro rp hro hrp hag, rfl, ?_⟩
+      exact restrict_pairKey_prm _ _ _ _ _ hpn hag
+    · have hk : keepsUnmatched prm.names obj.names = true := h.resolve_left hp
+      have hno : ∀ ro ∈ obj.rows, agree obj.names ro.1 prm.names rp.1 = false := by
+        intro ro hro
+        cases hb : agree obj.names ro.1 prm.names rp.1 with
+        | false => rfl
+        | true => exact absurd ⟨ro, hro, hb⟩ hp
+      refine ⟨_, unmatched_prm_kept obj prm rp hrp hno hk, rfl, ?_⟩
+      exact restrict_map _ _ _ hpn
+
+/-- the quantifier's side condition: every shared-level key of one operand is present in the other -/
+def AllPresent (obj prm : Tbl V) : Prop :=
+  (∀ ro ∈ obj.rows, ∃ rp ∈ prm.rows, agree obj.names ro.1 prm.names rp.1 = true) ∧
+  (∀ rp ∈ prm.rows, ∃ ro ∈ obj.rows, agree obj.names ro.1 prm.names rp.1 = true)
+
+/-- NO ROW IS LOST on the property's quantifier domain, with one exception.  Guard, per operand: every shared key
+is present in the other operand (this covers "overlapping" as the quantifier restricts it, and disjoint names with
+non-empty operands), or a level is shared and the operand is not a flat index against a MultiIndex
+(this covers equal level sets and the operand with MORE levels of a containment, with any key sets, and after the
+repair also the operand with fewer levels when two or more levels are shared).
+The exception - `row_lost_iff` below - is the finding-like behaviour D13-12: containment with ONE shared level, the
+flat operand's partner-less rows vanish. -/
+theorem broadcast_no_row_lost_partial (obj prm : Tbl V)
+    (hgo : (∀ ro ∈ obj.rows, ∃ rp ∈ prm.rows, agree obj.names ro.1 prm.names rp.1 = true) ∨
+      keepsUnmatched obj.names prm.names = true)
+    (hgp : (∀ rp ∈ prm.rows, ∃ ro ∈ obj.rows, agree obj.names ro.1 prm.names rp.1 = true) ∨
+      keepsUnmatched prm.names obj.names = true) :
+    (∀ ro ∈ obj.rows, ObjRepresented obj prm ro) ∧ (∀ rp ∈ prm.rows, PrmRepresented obj prm rp) := by
+  constructor
+  · intro ro hro
+    apply (obj_row_represented_iff obj prm ro hro).mpr
+    rcases hgo with h | h
+    · exact Or.inl (h ro hro)
+    · exact Or.inr h
+  · intro rp hrp
+    apply (prm_row_represented_iff obj prm rp hrp).mpr
+    rcases hgp with h | h
+    · exact Or.inl (h rp hrp)
+    · exact Or.inr h
+
+/-- A row of the object is LOST (not represented) iff it has no partner and either no level is shared or the
+object is a flat index joined with a MultiIndex that has its level. -/
+theorem obj_row_lost_iff (obj prm : Tbl V) (ro : Key × V) (hro : ro ∈ obj.rows) :
+    ¬ ObjRepresented obj prm ro ↔
+      (∀ rp ∈ prm.rows, agree obj.names ro.1 prm.names rp.1 = false) ∧
+        (shared obj.names prm.names = [] ∨
+          (obj.names.length = 1 ∧ 2 ≤ prm.names.length ∧ subset obj.names prm.names = true)) := by
+  rw [obj_row_represented_iff obj prm ro hro, not_or]
+  constructor
+  · rintro ⟨h1, h2⟩
+    refine ⟨fun rp hrp => ?_, ?_⟩
+    · cases hb : agree obj.names ro.1 prm.names rp.1 with
+      | false => rfl
+      | true => exact absurd ⟨rp, hrp, hb⟩ h1
+    · by_cases hs : shared obj.names prm.names = []
+      · exact Or.inl hs
+      · right
+        simp only [keepsUnmatched, dropsUnmatched, Bool.and_eq_true, Bool.not_eq_true', List.isEmpty_eq_false_iff,
+          decide_eq_true_eq, not_and, Bool.not_eq_false] at h2
+        simpa [Bool.and_eq_true, and_assoc] using h2 hs
+  · rintro ⟨h1, h2⟩
+    refine ⟨fun ⟨rp, hrp, hag⟩ => ?_, ?_⟩
+    · rw [h1 rp hrp] at hag
+      cases hag
+    · rcases h2 with hs | ⟨ha, hb, hc⟩
+      · simp [keepsUnmatched, hs]
+      · simp [keepsUnmatched, dropsUnmatched, ha, hb, hc]
+
+/-- Disjoint level names: no row of the object is lost as soon as the parameter has a row. -/
+theorem obj_represented_of_disjoint (obj prm : Tbl V) (hd : shared obj.names prm.names = [])
+    (hp : prm.rows ≠ []) (ro : Key × V) (hro : ro ∈ obj.rows) : ObjRepresented obj prm ro := by
+  apply (obj_row_represented_iff obj prm ro hro).mpr
+  obtain ⟨rp, hrp⟩ := List.exists_mem_of_ne_nil _ hp
+  exact Or.inl ⟨rp, hrp, by simp [agree, hd]⟩
+
+/-! ### 4. no key twice: the result's index is a key set again -/
+
+/-- Two rows of the result with the same key are the same row (no key carries two different payload pairs). -/
+theorem joinRows_key_inj (obj prm : Tbl V) (hko : obj.KeysNodup) (hkp : prm.KeysNodup)
+    (r r' : Row V) (hr : r ∈ joinRows obj prm) (hr' : r' ∈ joinRows obj prm) (hk : r.key = r'.key) : r = r' := by
+  have hon : ∀ n ∈ obj.names, n ∈ resultNames obj.names prm.names :=
+    fun n hn => mem_resultNames.mpr (Or.inl hn)
+  have hpn : ∀ n ∈ prm.names, n ∈ resultNames obj.names prm.names :=
+    fun n hn => mem_resultNames.mpr (Or.inr hn)
+  -- the key of a row determines the own keys of the operand rows it stems from
+  have hO : restrict (resultNames obj.names prm.names) r.key obj.names =
+      restrict (resultNames obj.names prm.names) r'.key obj.names := by rw [hk]
+  have hP : restrict (resultNames obj.names prm.names) r.key prm.names =
+      restrict (resultNames obj.names prm.names) r'.key prm.names := by rw [hk]
+  cases mem_joinRows hr with
+  | pair ro rp hro hrp hag h =>
+    subst h
+    cases mem_joinRows hr' with
+    | pair ro' rp' hro' hrp' hag' h' =>
+      subst h'
+      simp only [restrict_pairKey_obj _ _ _ _ _ hon] at hO
+      simp only [restrict_pairKey_prm _ _ _ _ _ hpn hag, restrict_pairKey_prm _ _ _ _ _ hpn hag'] at hP
+      rw [hko.row_eq hro hro' hO, hkp.row_eq hrp hrp' hP]
+    | objOnly ro' hro' hno hkeep h' =>
+      subst h'
+      exfalso
+      simp only [restrict_pairKey_prm _ _ _ _ _ hpn hag, restrict_map _ _ _ hpn] at hP
+      have : agree obj.names ro'.1 prm.names rp.1 = true := by
+        apply agree_iff.mpr
+        intro n _ h2
+        unfold ownKey at hP
+        exact ((List.map_inj_left.mp hP) n h2).symm
+      rw [hno rp hrp] at this
+      cases this
+    | prmOnly rp' hrp' hno hkeep h' =>
+      subst h'
+      exfalso
+      simp only [restrict_pairKey_obj _ _ _ _ _ hon, restrict_map _ _ _ hon] at hO
+      have : agree obj.names ro.1 prm.names rp'.1 = true := by
+        apply agree_iff.mpr
+        intro n h1 _
+        unfold ownKey at hO
+        exact (List.map_inj_left.mp hO) n h1
+      rw [hno ro hro] at this
+      cases this
+  | objOnly ro hro hno hkeep h =>
+    subst h
+    cases mem_joinRows hr' with
+    | pair ro' rp' hro' hrp' hag' h' =>
+      subst h'
+      exfalso
+      simp only [restrict_pairKey_prm _ _ _ _ _ hpn hag', restrict_map _ _ _ hpn] at hP
+      have : agree obj.names ro.1 prm.names rp'.1 = true := by
+        apply agree_iff.mpr
+        intro n _ h2
+        unfold ownKey at hP
+        exact (List.map_inj_left.mp hP) n h2
+      rw [hno rp' hrp'] at this
+      cases this
+    | objOnly ro' hro' hno' hkeep' h' =>
+      subst h'
+      simp only [restrict_map _ _ _ hon] at hO
+      rw [hko.row_eq hro hro' hO]
+    | prmOnly rp' hrp' hno' hkeep' h' =>
+      subst h'
+      exfalso
+      simp only [restrict_map _ _ _ hon] at hO
+      have : agree obj.names ro.1 prm.names rp'.1 = true := by
+        apply agree_iff.mpr
+        intro n h1 _
+        exact (List.map_inj_left.mp hO) n h1
+      rw [hno rp' hrp'] at this
+      cases this
+  | prmOnly rp hrp hno hkeep h =>
+    subst h
+    cases mem_joinRows hr' with
+    | pair ro' rp' hro' hrp' hag' h' =>
+      subst h'
+      exfalso
+      simp only [restrict_pairKey_obj _ _ _ _ _ hon, restrict_map _ _ _ hon] at hO
+      have : agree obj.names ro'.1 prm.names rp.1 = true := by
+        apply agree_iff.mpr
+        intro n h1 _
+        unfold ownKey at hO
+        exact ((List.map_inj_left.mp hO) n h1).symm
+      rw [hno ro' hro'] at this
+      cases this
+    | objOnly ro' hro' hno' hkeep' h' =>
+      subst h'
+      exfalso
+      simp only [restrict_map _ _ _ hon] at hO
+      have : agree obj.names ro'.1 prm.names rp.1 = true := by
+        apply agree_iff.mpr
+        intro n h1 _
+        exact ((List.map_inj_left.mp hO) n h1).symm
+      rw [hno ro' hro'] at this
+      cases this
+    | prmOnly rp' hrp' hno' hkeep' h' =>
+      subst h'
+      simp only [restrict_map _ _ _ hpn] at hP
+      rw [hkp.row_eq hrp hrp' hP]
+
+/-- The joined rows contain no row twice. -/
+theorem joinRows_nodup (obj prm : Tbl V) (hko : obj.KeysNodup) (hkp : prm.KeysNodup) :
+    (joinRows obj prm).Nodup := by
+  have hon : ∀ n ∈ obj.names, n ∈ resultNames obj.names prm.names :=
+    fun n hn => mem_resultNames.mpr (Or.inl hn)
+  have hpn : ∀ n ∈ prm.names, n ∈ resultNames obj.names prm.names :=
+    fun n hn => mem_resultNames.mpr (Or.inr hn)
+  have hmatched : (matched (resultNames obj.names prm.names) obj prm).Nodup := by
+    unfold matched
+    apply List.nodup_flatMap.mpr
+    constructor
+    · intro ro hro
+      apply List.Nodup.map_on _ (hkp.rows_nodup.filter _)
+      intro rp hrp rp' hrp' he
+      have hrp1 := List.mem_filter.mp hrp
+      have hrp2 := List.mem_filter.mp hrp'
+      have hag : agree obj.names ro.1 prm.names rp.1 = true := by simpa using hrp1.2
+      have hag' : agree obj.names ro.1 prm.names rp'.1 = true := by simpa using hrp2.2
+      have hk := congrArg (fun r : Row V => restrict (resultNames obj.names prm.names) r.key prm.names) he
+      simp only [restrict_pairKey_prm _ _ _ _ _ hpn hag, restrict_pairKey_prm _ _ _ _ _ hpn hag'] at hk
+      exact hkp.row_eq hrp1.1 hrp2.1 hk
+    · apply List.Pairwise.imp_of_mem _ hko.rows_nodup
+      intro ro ro' hro hro' hne
+      simp only [Function.onFun]
+      intro l h1 h2
+      obtain ⟨rp, _, e1⟩ := List.mem_map.mp h1
+      obtain ⟨rp', _, e2⟩ := List.mem_map.mp h2
+      have he := e1.trans e2.symm
+      have hk := congrArg (fun r : Row V => restrict (resultNames obj.names prm.names) r.key obj.names) he
+      simp only [restrict_pairKey_obj _ _ _ _ _ hon] at hk
+      exact absurd (hko.row_eq hro hro' hk) hne
+  have hinj := joinRows_key_inj obj prm hko hkp
+  -- the three parts are duplicate free, and rows of different parts differ in their payload pattern
+  unfold joinRows at hinj ⊢
+  simp only
+  apply List.Nodup.append
+  · apply List.Nodup.append hmatched
+    · split
+      · apply List.Nodup.map_on _ (hko.rows_nodup.filter _)
+        intro ro hro ro' hro' he
+        have hk := congrArg (fun r : Row V => restrict (resultNames obj.names prm.names) r.key obj.names) he
+        simp only [restrict_map _ _ _ hon] at hk
+        exact hko.row_eq (List.mem_filter.mp hro).1 (List.mem_filter.mp hro').1 hk
+      · exact List.nodup_nil
+    · intro r h1 h2
+      obtain ⟨_, _, _, _, _, e⟩ := mem_matched.mp h1
+      split at h2
+      · obtain ⟨ro, _, e2⟩ := List.mem_map.mp h2
+        rw [e] at e2
+        have := congrArg Row.prm e2
+        cases this
+      · cases h2
+  · split
+    · apply List.Nodup.map_on _ (hkp.rows_nodup.filter _)
+      intro rp hrp rp' hrp' he
+      have hk := congrArg (fun r : Row V => restrict (resultNames obj.names prm.names) r.key prm.names) he
+      simp only [restrict_map _ _ _ hpn] at hk
+      exact hkp.row_eq (List.mem_filter.mp hrp).1 (List.mem_filter.mp hrp').1 hk
+    · exact List.nodup_nil
+  · intro r h1 h2
+    split at h2
+    · obtain ⟨rp, _, e2⟩ := List.mem_map.mp h2
+      rcases List.mem_append.mp h1 with h1 | h1
+      · obtain ⟨_, _, _, _, _, e⟩ := mem_matched.mp h1
+        rw [e] at e2
+        have := congrArg Row.obj e2
+        cases this
+      · split at h1
+        · obtain ⟨ro, _, e⟩ := List.mem_map.mp h1
+          rw [← e] at e2
+          have := congrArg Row.obj e2
+          cases this
+        · cases h1
+    · cases h2
+
+/-- NO KEY TWICE: the keys of the returned objects are pairwise distinct (both carry the same key list,
+`broadcast_same_index`). -/
+theorem broadcast_keys_nodup (obj prm : Tbl V) (hko : obj.KeysNodup) (hkp : prm.KeysNodup)
+    (out : Out V) (h : broadcast obj (.tbl prm) = .ok out) :
+    (out.obj.rows.map Prod.fst).Nodup ∧ (out.prm.rows.map Prod.fst).Nodup := by
+  simp only [broadcast, prmTbl, broadcastTbl] at h
+  cases h
+  have hn : ((joinRows obj prm).map fun r => r.key).Nodup :=
+    List.Nodup.map_on (fun r hr r' hr' hk => joinRows_key_inj obj prm hko hkp r r' hr hr' hk)
+      (joinRows_nodup obj prm hko hkp)
+  simpa [split, List.map_map, Function.comp_def] using hn
+
+/-! ### 5. disjoint level names: cross join with |obj|·|prm| rows -/
 
 theorem agree_of_disjoint {on pn : List Name} (hd : shared on pn = []) (ko kp : Key) :
     agree on ko pn kp = true := by
@@ -161,130 +505,86 @@ theorem matched_length_of_disjoint (ns : List Name) (obj prm : Tbl V)
     (hd : shared obj.names prm.names = []) :
     (matched ns obj prm).length = obj.rows.length * prm.rows.length := by
   unfold matched
-  have hin : ∀ ro : Key × V,
-      (prm.rows.filterMap fun rp =>
-        if agree obj.names ro.1 prm.names rp.1 then
-          some (⟨pairKey ns obj.names ro.1 prm.names rp.1, some ro.2, some rp.2⟩ : Row V)
-        else none).length = prm.rows.length := by
+  have hf : ∀ ro : Key × V,
+      (prm.rows.filter fun rp => agree obj.names ro.1 prm.names rp.1) = prm.rows := by
     intro ro
-    induction prm.rows with
-    | nil => rfl
-    | cons rp rest ih =>
-      simp only [agree_of_disjoint hd, if_true] at ih
-      simp only [List.filterMap_cons, agree_of_disjoint hd, if_true, List.length_cons, ih]
+    apply List.filter_eq_self.mpr
+    intro rp _
+    exact agree_of_disjoint hd _ _
+  simp only [hf]
   induction obj.rows with
   | nil => simp
   | cons ro rest ih =>
-    simp only [List.flatMap_cons, List.length_append, hin, ih, List.length_cons]
+    simp only [List.flatMap_cons, List.length_append, List.length_map, ih, List.length_cons]
     rw [Nat.add_mul, Nat.one_mul, Nat.add_comm]
 
-theorem broadcast_cross_join_card (obj prm : Tbl V) (j : Joined V)
-    (hd : shared obj.names prm.names = []) (ho : obj.rows ≠ []) (hp : prm.rows ≠ [])
-    (h : broadcastTbl obj prm = .ok j) :
-    j.rows.length = obj.rows.length * prm.rows.length := by
-  unfold broadcastTbl at h
-  split at h
-  · cases h
-  · cases h
-    have huo : unmatchedObj obj prm = [] := by
-      apply List.eq_nil_iff_forall_not_mem.mpr
-      intro ro hro
-      obtain ⟨_, hno⟩ := mem_unmatchedObj.mp hro
-      obtain ⟨rp, hrp⟩ := List.exists_mem_of_ne_nil _ hp
-      have := hno rp hrp
-      rw [agree_of_disjoint hd] at this
-      cases this
-    have hup : unmatchedPrm obj prm = [] := by
-      apply List.eq_nil_iff_forall_not_mem.mpr
-      intro rp hrp
-      obtain ⟨_, hno⟩ := mem_unmatchedPrm.mp hrp
-      obtain ⟨ro, hro⟩ := List.exists_mem_of_ne_nil _ ho
-      have := hno ro hro
-      rw [agree_of_disjoint hd] at this
-      cases this
-    simp only [joinRows, huo, hup, List.map_nil, ite_self, List.append_nil]
-    exact matched_length_of_disjoint _ obj prm hd
+/-- Disjoint level names: the result has exactly |obj|·|prm| rows (also when an operand is empty). -/
+theorem broadcast_cross_join_card (obj prm : Tbl V) (hd : shared obj.names prm.names = []) :
+    (broadcastTbl obj prm).rows.length = obj.rows.length * prm.rows.length := by
+  have hd' : shared prm.names obj.names = [] := by
+    apply List.eq_nil_iff_forall_not_mem.mpr
+    intro n hn
+    have := mem_shared.mp hn
+    have hm : n ∈ shared obj.names prm.names := mem_shared.mpr ⟨this.2, this.1⟩
+    rw [hd] at hm
+    cases hm
+  simp only [broadcastTbl, joinRows, keepsUnmatched, hd, hd', List.isEmpty_nil, Bool.not_true, Bool.false_and,
+    Bool.false_eq_true, if_false, List.append_nil]
+  exact matched_length_of_disjoint _ obj prm hd
 
-/-! ### 5. which operand pairs the real code rejects -/
+/-! ### 6. arrays are positional; the Broadcaster always returns for a pandas parameter -/
 
-/-- the quantifier's side condition: every shared-level key of one operand is present in the other -/
-def AllPresent (obj prm : Tbl V) : Prop :=
-  (∀ ro ∈ obj.rows, ∃ rp ∈ prm.rows, agree obj.names ro.1 prm.names rp.1 = true) ∧
-  (∀ rp ∈ prm.rows, ∃ ro ∈ obj.rows, agree obj.names ro.1 prm.names rp.1 = true)
+theorem resultNames_self (on : List Name) : resultNames on on = on := by
+  unfold resultNames
+  split
+  · next h => omega
+  · simp [total]
 
-theorem unmatched_nil_of_present (obj prm : Tbl V) (h : AllPresent obj prm) :
-    unmatchedObj obj prm = [] ∧ unmatchedPrm obj prm = [] := by
-  constructor
-  · apply List.eq_nil_iff_forall_not_mem.mpr
-    intro ro hro
-    obtain ⟨h1, hno⟩ := mem_unmatchedObj.mp hro
-    obtain ⟨rp, hrp, hag⟩ := h.1 ro h1
-    rw [hno rp hrp] at hag
-    cases hag
-  · apply List.eq_nil_iff_forall_not_mem.mpr
-    intro rp hrp
-    obtain ⟨h1, hno⟩ := mem_unmatchedPrm.mp hrp
-    obtain ⟨ro, hro, hag⟩ := h.2 rp h1
-    rw [hno ro hro] at hag
-    cases hag
+theorem pairKey_self (on : List Name) (k : Key) : pairKey on on k on k = ownKey on k := by
+  unfold pairKey ownKey
+  apply List.map_congr_left
+  intro n hn
+  simp [hn]
 
-/-- With every shared-level key present in both operands (any layout of level names) the code returns. -/
-theorem raises_false_of_present (obj prm : Tbl V) (h : AllPresent obj prm) : raises obj prm = false := by
-  obtain ⟨h1, h2⟩ := unmatched_nil_of_present obj prm h
-  simp [raises, h1, h2]
+theorem agree_self (on : List Name) (k : Key) : agree on k on k = true := by
+  simp [agree]
 
-/-- Equal level-name sets (any level order, any key sets): the code returns (outer join). -/
-theorem raises_false_of_same_levels (obj prm : Tbl V)
-    (h1 : subset obj.names prm.names = true) (h2 : subset prm.names obj.names = true) :
-    raises obj prm = false := by
-  simp [raises, h1, h2]
+/-- An array of the object's length against a table object: in both returned tables the object's i-th key
+carries the object's i-th payload and the array's i-th element. -/
+theorem broadcast_array (obj : Tbl V) (vs : List V) (out : Out V) (hn : obj.names ≠ [])
+    (hl : vs.length = obj.rows.length) (h : broadcast obj (.array vs) = .ok out)
+    (i : Nat) (hi : i < obj.rows.length) :
+    (ownKey obj.names obj.rows[i].1, some obj.rows[i].2) ∈ out.obj.rows ∧
+    (ownKey obj.names obj.rows[i].1, some (vs[i]'(hl ▸ hi))) ∈ out.prm.rows := by
+  simp only [broadcast, prmTbl, hn, hl, if_false, if_true] at h
+  cases h
+  have hro : obj.rows[i] ∈ obj.rows := List.getElem_mem hi
+  have hrp : (obj.rows[i].1, vs[i]'(hl ▸ hi)) ∈ List.zipWith (fun r v => (r.1, v)) obj.rows vs := by
+    apply List.mem_iff_getElem.mpr
+    refine ⟨i, by simp [hl, hi], ?_⟩
+    simp
+  have hm := broadcast_pairs_complete obj ⟨obj.names, List.zipWith (fun r v => (r.1, v)) obj.rows vs⟩
+    obj.rows[i] (obj.rows[i].1, vs[i]'(hl ▸ hi)) hro hrp (agree_self _ _)
+  simp only [broadcastTbl, resultNames_self, pairKey_self] at hm
+  simp only [split, broadcastTbl, resultNames_self, List.mem_map]
+  exact ⟨⟨_, hm, rfl⟩, ⟨_, hm, rfl⟩⟩
 
-/-- Disjoint level names, both operands non-empty: the code returns (cross join). -/
-theorem raises_false_of_disjoint (obj prm : Tbl V) (hd : shared obj.names prm.names = [])
-    (ho : obj.rows ≠ []) (hp : prm.rows ≠ []) : raises obj prm = false := by
-  apply raises_false_of_present
-  constructor
-  · intro ro _
-    obtain ⟨rp, hrp⟩ := List.exists_mem_of_ne_nil _ hp
-    exact ⟨rp, hrp, agree_of_disjoint hd _ _⟩
-  · intro rp _
-    obtain ⟨ro, hro⟩ := List.exists_mem_of_ne_nil _ ho
-    exact ⟨ro, hro, agree_of_disjoint hd _ _⟩
-
-/-- One operand's levels contained in the other's and at most one level shared: the code returns
-(partner-less rows of the operand with fewer levels are dropped). -/
-theorem raises_false_of_contained_single (obj prm : Tbl V)
-    (hc : subset obj.names prm.names = true ∨ subset prm.names obj.names = true)
-    (h1 : (shared obj.names prm.names).length ≤ 1) : raises obj prm = false := by
-  have hm : decide (2 ≤ (shared obj.names prm.names).length) = false := by
-    simp; omega
-  rcases hc with hc | hc <;> simp [raises, hc, hm]
-
-/-- Summary: the full statement "for every layout of the quantifier the two returned tables exist and have the
-look-up reading" holds except where `raises` is true inside the quantifier.  That happens exactly for
-"one name set contained in the other, ≥ 2 shared levels, the smaller operand holds a key the bigger has not"
-(finding class `contained-multi-shared-missing-key`; the real code raises IndexError). -/
-theorem broadcast_total_partial (obj prm : Tbl V) (hfo : obj.Functional) (hfp : prm.Functional)
-    (hguard : AllPresent obj prm ∨
-      (subset obj.names prm.names = true ∧ subset prm.names obj.names = true) ∨
-      ((subset obj.names prm.names = true ∨ subset prm.names obj.names = true) ∧
-        (shared obj.names prm.names).length ≤ 1)) :
+/-- A pandas parameter is never rejected (after the repairs `tools/fixes/C13-*.diff`): for EVERY layout of
+level names and every key sets the two aligned tables are returned, with the look-up reading of section 2 and
+pairwise distinct keys. -/
+theorem broadcast_total (obj prm : Tbl V) (hko : obj.KeysNodup) (hkp : prm.KeysNodup) :
     ∃ out, broadcast obj (.tbl prm) = .ok out ∧
       out.obj.names = out.prm.names ∧ out.obj.rows.map Prod.fst = out.prm.rows.map Prod.fst ∧
+      (out.obj.rows.map Prod.fst).Nodup ∧
       (∀ kv ∈ out.obj.rows, kv.2 = obj.at (restrict out.obj.names kv.1 obj.names)) ∧
       (∀ kv ∈ out.prm.rows, kv.2 = prm.at (restrict out.prm.names kv.1 prm.names)) := by
-  have hr : raises obj prm = false := by
-    rcases hguard with h | ⟨h1, h2⟩ | ⟨hc, h1⟩
-    · exact raises_false_of_present obj prm h
-    · exact raises_false_of_same_levels obj prm h1 h2
-    · exact raises_false_of_contained_single obj prm hc h1
-  have hb : broadcast obj (.tbl prm) =
-      .ok (split ⟨resultNames obj.names prm.names, joinRows obj prm⟩) := by
-    simp [broadcast, prmTbl, broadcastTbl, hr]
+  have hb : broadcast obj (.tbl prm) = .ok (split (broadcastTbl obj prm)) := by
+    simp [broadcast, prmTbl]
   refine ⟨_, hb, ?_⟩
   have hs := broadcast_same_index obj (.tbl prm) _ hb
-  have hl := broadcast_lookup obj prm hfo hfp _ hb
-  exact ⟨hs.1, hs.2, hl.1, hl.2⟩
+  have hl := broadcast_lookup obj prm hko hkp _ hb
+  have hn := broadcast_keys_nodup obj prm hko hkp _ hb
+  exact ⟨hs.1, hs.2, hn.1, hl.1, hl.2⟩
 
 /-! ### non-vacuity and witnesses -/
 
@@ -299,23 +599,46 @@ def wPrm : Tbl Int := ⟨[y, z], [([20, 0], 5), ([21, 1], 6)]⟩
 example : AllPresent wObj wPrm := by
   constructor <;> decide
 
-example : broadcastTbl wObj wPrm = .ok ⟨[x, z, y],
+example : broadcastTbl wObj wPrm = ⟨[x, z, y],
     [⟨[some 10, some 0, some 20], some 1, some 5⟩, ⟨[some 11, some 1, some 21], some 2, some 6⟩]⟩ := by
   decide
 
-example : wObj.Functional ∧ wPrm.Functional := by
-  constructor <;> (intro r hr r' hr' h; revert h; revert r r'; decide)
+example : wObj.KeysNodup ∧ wPrm.KeysNodup := by
+  constructor <;> (unfold Tbl.KeysNodup; decide)
 
-/-- the finding class: `(x,y,z)` against `(y,z)` where the parameter holds a key `(y,z) = (1,1)` that the
-object has not — the model (like the real code) rejects the pair -/
+/-- the guard of `broadcast_no_row_lost_partial` on this pair: every shared key is present -/
+example : (∀ ro ∈ wObj.rows, ObjRepresented wObj wPrm ro) ∧ (∀ rp ∈ wPrm.rows, PrmRepresented wObj wPrm rp) :=
+  broadcast_no_row_lost_partial wObj wPrm (Or.inl (by decide)) (Or.inl (by decide))
+
+/-- the former finding class contained-multi-shared-missing-key: `(x,y,z)` against `(y,z)` where the parameter
+holds a key `(y,z) = (1,1)` that the object has not - after the repair the row is kept, `x` is NaN -/
 def fObj : Tbl Int := ⟨[x, y, z], [([0, 0, 0], 1), ([1, 0, 0], 2)]⟩
 def fPrm : Tbl Int := ⟨[y, z], [([0, 0], 5), ([1, 1], 6)]⟩
 
-theorem raises_at_witness : broadcastTbl fObj fPrm = .error .indexError := by decide
+theorem nan_level_at_witness : broadcastTbl fObj fPrm = ⟨[x, y, z],
+    [⟨[some 0, some 0, some 0], some 1, some 5⟩, ⟨[some 1, some 0, some 0], some 2, some 5⟩,
+     ⟨[none, some 1, some 1], none, some 6⟩]⟩ := by decide
+
+example : keepsUnmatched fPrm.names fObj.names = true ∧ keepsUnmatched fObj.names fPrm.names = true := by decide
+
+/-- D13-12: a flat signal `a = 1, 2, 3` against a parameter on `(a, b)` without `a = 3`: the signal's third row is
+not in the result (3 rows), and no guard of `broadcast_no_row_lost_partial` holds for the object -/
+def a : Name := .named "a"
+def b : Name := .named "b"
+def lObj : Tbl Int := ⟨[a], [([1], 1), ([2], 2), ([3], 3)]⟩
+def lPrm : Tbl Int := ⟨[a, b], [([1, 7], 5), ([1, 8], 6), ([2, 7], 7)]⟩
+
+theorem row_lost_at_witness :
+    broadcastTbl lObj lPrm = ⟨[a, b],
+      [⟨[some 1, some 7], some 1, some 5⟩, ⟨[some 1, some 8], some 1, some 6⟩, ⟨[some 2, some 7], some 2, some 7⟩]⟩ ∧
+    ¬ ObjRepresented lObj lPrm ([3], 3) := by
+  refine ⟨by decide, ?_⟩
+  apply (obj_row_lost_iff lObj lPrm ([3], 3) (by decide)).mpr
+  exact ⟨by decide, Or.inr (by decide)⟩
 
 /-- equal level names, different keys: outer join with NaN payloads -/
 example : broadcastTbl (⟨[x], [([0], 1), ([1], 2)]⟩ : Tbl Int) ⟨[x], [([1], 5), ([2], 6)]⟩ =
-    .ok ⟨[x], [⟨[some 1], some 2, some 5⟩, ⟨[some 0], some 1, none⟩, ⟨[some 2], none, some 6⟩]⟩ := by
+    ⟨[x], [⟨[some 1], some 2, some 5⟩, ⟨[some 0], some 1, none⟩, ⟨[some 2], none, some 6⟩]⟩ := by
   decide
 
 /-- disjoint level names: 2 · 3 rows -/
@@ -328,5 +651,8 @@ example : (broadcast (⟨[x], [([0], 1), ([1], 2)]⟩ : Tbl Int) (.scalar 7)).to
 
 example : prmTbl (⟨[x], [([0], 1), ([1], 2)]⟩ : Tbl Int) (.array [7, 8, 9]) = .error .valueError := by
   decide
+
+example : (broadcast (⟨[x], [([0], 1), ([1], 2)]⟩ : Tbl Int) (.array [7, 8])).toOption.map (·.prm.rows) =
+    some [([some 0], some 7), ([some 1], some 8)] := by decide
 
 end PylifeVerif.C13
